@@ -115,15 +115,19 @@ def check(ctx, case, obs):
         else:
             ctx.count("model:fromjson:unsupported")
     # options: model dump / reload / dump against the implementation's Option(**dump).to_json_dict()
+    import inspect
+
     from pyxform.question import Option
 
+    ctor = [k for k, v in inspect.signature(Option.__init__).parameters.items()
+            if k != "self" and v.kind is not inspect.Parameter.VAR_KEYWORD]
     n = 0
     for ln, its in (s.choices or {}).items():
         for o in its.options:
             if n >= 6:
                 break
             n += 1
-            r = ctx.driver.call("tojson.option_reload", opt=opt_wire(o))
+            r = ctx.driver.call("tojson.option_reload", opt=opt_wire(o), names=ctor)
             d1 = o.to_json_dict(delete_keys=("parent",))
             o2 = Option(**d1)
             want = {"d1": C.enc(jsonable(d1)), "extra2": C.enc(jsonable(o2.extra_data or {})),
